@@ -2,12 +2,13 @@
 //! validation/metering configuration and run exports with a recording host.
 use concordium_wasm::{
     artifact::{Artifact, ArtifactNamedImport, CompiledFunction, RunnableCode},
-    machine::{ExecutionOutcome, Host, RunConfig, RunResult, RuntimeStack, Value},
+    machine::{ExecutionOutcome, Host, RunConfig, RunResult, RuntimeStack},
     types::{FunctionType, Name, ValueType},
     utils,
     validate::{ValidateImportExport, ValidationConfig},
     CostConfigurationV0, CostConfigurationV1,
 };
+pub use concordium_wasm::machine::Value;
 use wasmgen::ast::ValType;
 use wasmgen::hostmodel::HostModel;
 
